@@ -87,4 +87,15 @@ theorem scanf3_headerLine (seq off size : Nat) (rest : Bytes)
   simp [scanf3, cComma, cNL, scanNum_fmtNat _ 44 _ (by decide : isDigit 44 = false),
         scanNum_fmtNat _ 10 _ (by decide : isDigit 10 = false), h1, h2, h3, scanComma, List.dropWhile, isBlank]
 
+/-! ## the two sides of the SQL session row -/
+
+theorem insertMsg_updIncoming (t : Tables) (v : Int) (n : Nat) (m : Bytes) :
+    (t.updIncoming v).insertMsg n m = (t.insertMsg n m).map (fun t' => t'.updIncoming v) := by
+  unfold Tables.insertMsg Tables.updIncoming
+  by_cases h : (t.msgs.any fun p => p.1 == n) = true <;> simp [h]
+
+theorem updIncoming_updOutgoing (t : Tables) (v u : Int) :
+    (t.updIncoming v).updOutgoing u = (t.updOutgoing u).updIncoming v := by
+  cases t with | mk sess msgs => cases sess <;> simp [Tables.updIncoming, Tables.updOutgoing]
+
 end Qfx.Store
